@@ -18,6 +18,7 @@ INJECT = [
     ("zkchannels-crypto/src/proofs/commitment.rs", "zc_commitment_access.rs"),
     ("zkchannels-crypto/src/proofs/signature.rs", "zc_signature.rs"),
     ("zkchannels-crypto/src/proofs/range.rs", "zc_range.rs"),
+    ("zkchannels-crypto/src/proofs/challenge.rs", "zc_challenge.rs"),
     ("zkabacus-crypto/src/merchant.rs", "za_merchant.rs"),
     ("zkabacus-crypto/src/states.rs", "za_states.rs"),
     ("zkabacus-crypto/src/proofs.rs", "za_proofs.rs"),
@@ -32,9 +33,11 @@ TESTS = {
     "standin_sproof_verify": ("zkchannels-crypto", ["C11", "C10", "C02", "C13", "C12"], ["sproof.SignatureProof::verify_knowledge_of_signature", "sproof.SignatureProof::consume"]),
     "standin_range_validate": ("zkchannels-crypto", ["C13", "C19"], ["range.RangeConstraintParameters::validate"]),
     "standin_range_constraint": ("zkchannels-crypto", ["C13", "C10", "C02"], ["range.RangeConstraintBuilder::*", "range.RangeConstraint::verify_range_constraint"]),
+    "standin_challenge_finish": ("zkchannels-crypto", ["C12", "C06"], ["challenge.ChallengeBuilder::finish", "challenge.ChallengeBuilder::with_bytes", "challenge.Scalar::consume", "challenge.G1Projective::consume"]),
     "standin_range_params_challenge": ("zkchannels-crypto", ["C06", "C02", "C12"], ["range.RangeConstraintParameters::consume"]),
     "standin_channel_id_scalar": ("zkabacus-crypto", ["C06", "C18", "C01"], ["states.ChannelId::to_scalar"]),
     "standin_channel_id_collision_mod_q": ("zkabacus-crypto", ["C06"], ["states.ChannelId::to_scalar"]),
+    "standin_channel_id_text": ("zkabacus-crypto", ["C15", "C16"], ["states.<ChannelId as FromStr>::from_str", "states.<ChannelId as Display>::fmt"]),
     "standin_channel_id_new": ("zkabacus-crypto", ["C18"], ["states.ChannelId::new"]),
     "standin_establish_tuple": ("zkabacus-crypto", ["C06", "C01"], ["zproofs.EstablishProof::new", "zproofs.EstablishProof::verify"]),
     "standin_pay_tuple": ("zkabacus-crypto", ["C06", "C02"], ["zproofs.PayProof::new", "zproofs.PayProof::verify"]),
@@ -44,7 +47,7 @@ TESTS = {
 
 
 # stand-ins that run in every tier: they carry a recorded finding that no deductive obligation expresses
-ALWAYS = {"C06": ["standin_channel_id_collision_mod_q", "standin_channel_id_scalar"], "C14": ["standin_no_hidden_slot_exposed"]}
+ALWAYS = {"C06": ["standin_channel_id_collision_mod_q", "standin_channel_id_scalar", "standin_establish_tuple", "standin_pay_tuple"], "C14": ["standin_no_hidden_slot_exposed"]}
 
 
 def tests_for(pid):
